@@ -384,7 +384,7 @@ def run_requests(binary, reqs, tag='c03'):
     rp = os.path.join(C.BUILD, f'{tag}.req')
     raw = os.path.join(C.BUILD, f'{tag}.raw')
     open(rp, 'w').write('\n'.join(reqs) + '\n')
-    rc, log = C.run_probe(binary, 'TestVerifC03', rp, raw, timeout=1500)
+    rc, log = C.run_probe(binary, 'TestVerifC03', rp, raw, timeout=600 if len(reqs) < 20000 else 1800)   # typical: 15 s quick, 4 min thorough
     if rc != 0:
         raise C.Infra(f'probe failed rc={rc}:\n{log[-2000:]}')
     cases = []
@@ -496,7 +496,7 @@ def run_exec(binary, names, maxdepth, step, tag='c03x'):
     ops = os.path.join(C.BUILD, f'{tag}.req')
     outp = os.path.join(C.BUILD, f'{tag}.raw')
     open(ops, 'w').write(''.join(f'c03.exec {n} {maxdepth} {step}\n' for n in names))
-    rc, log = C.run_probe(binary, 'TestVerifC03Exec', ops, outp, timeout=1500)
+    rc, log = C.run_probe(binary, 'TestVerifC03Exec', ops, outp, timeout=900)   # children: 120 s + one 300 s retry each, 8 in parallel
     if rc != 0:
         raise C.Infra(f'executed-layer probe failed rc={rc}:\n{log[-2000:]}')
     return list(zip(names, C.read_indexed(outp, len(names))))
